@@ -267,7 +267,7 @@ def loaded_sections(fn):
                 if isinstance(c, ast.Call) and isinstance(c.func, ast.Attribute) and c.func.attr == 'specialize' and c.func.value is n:
                     spec = c
             out.append((sec, ufile, ast.unparse(spec.args[0]) if spec is not None and spec.args else None,
-                        {k.arg for k in spec.keywords if k.arg} if spec is not None else set(), n.lineno))
+                        {k.arg for k in spec.keywords if k.arg} if spec is not None else set(), n.lineno, n))
     return out
 
 
@@ -315,7 +315,7 @@ def helper_problems(ctx, call, loads, spec_keys):
         return [('name', 'the name suffix of the emitted %s<T> call is %s, not a type-name method call' % (prefix, node_src(ph)))]
     method, texpr = ph.func.attr, ast.unparse(ph.func.value)
     matching = []
-    for sec, ufile, stype, kws, line in loads:
+    for sec, ufile, stype, kws, line, _n in loads:
         if ufile != CMATH:
             continue
         defs, keys = c_helpers(ctx, sec)
@@ -338,6 +338,38 @@ def helper_problems(ctx, call, loads, spec_keys):
         out.append(('unloaded', 'emits a call to %s<T> but its generate_evaluation_code loads no CMath.c section defining it (loaded: %s)'
                     % (prefix, sorted({l[0] for l in loads}) or 'none')))
     return out
+
+
+def coverage_problems(ctx, calc, call, gen, loads):
+    """Whenever the helper call is emitted for a C result, a section defining the helper is loaded (same attribute valuation)."""
+    node, prefix = call[0], call[1]
+    cc = None
+    for t, pc in P.path_conditions(calc, lambda x: x is node):
+        cc = pc
+    if cc is None:
+        raise AnalysisError('emitted helper call not found again')
+    cands = []
+    for sec, ufile, stype, kws, line, n in loads:
+        defs, keys = c_helpers(ctx, sec) if ufile == CMATH else (None, None)
+        if defs and any(pfx == prefix for lst in defs.values() for pfx, _, _ in lst):
+            for t, pc in P.path_conditions(gen, lambda x: x is n):
+                cands.append((sec, pc))
+    if not cands:
+        return []       # reported as 'unloaded' by helper_problems
+    tests = [t for t, _ in cc]
+    spans = []
+    for sec, pc in cands:
+        spans.append((len(tests), len(tests) + len(pc)))
+        tests += [t for t, _ in pc]
+    typed = {'self.cdivision': [None, False, True], 'self.truedivision': [None, False, True], 'self.type.is_pyobject': [False]}
+    for subst, av, vals in P.truth_table(tests, typed):
+        if not P.conj_holds(cc, vals[:len(cc)]):
+            continue
+        if not any(P.conj_holds(pc, vals[a:b]) for (sec, pc), (a, b) in zip(cands, spans)):
+            when = ', '.join('%s=%s' % kv for kv in sorted(av.items())) or 'always'
+            return [('unloaded-when', 'emits a call to %s<T> when %s (cdivision %r) but loads none of %s under that condition: the generated C calls an undeclared function'
+                     % (prefix, when, subst['self.cdivision'], sorted({s for s, _ in cands})))]
+    return []
 
 
 # ------------------------------------------------------------------------------------------------------------------ run
@@ -464,9 +496,9 @@ def run(ctx):
         for call in calls:
             key = '%s.calculate_result_code:%s' % (c.qual, call[1])
             rh.inst(key, sample='%s emits %s{%s}(%d args)' % (c.qual, call[1], node_src(call[2]), call[3]))
-            for k, msg in helper_problems(ctx, call, loads, spec_keys):
+            for k, msg in helper_problems(ctx, call, loads, spec_keys) + coverage_problems(ctx, fn, call, gen[1], loads):
                 rh.violate(key + ':' + k, REL, call[0].lineno, '%s.calculate_result_code %s' % (c.qual, msg))
-        for sec, ufile, stype, kws, line in loads:
+        for sec, ufile, stype, kws, line, _n in loads:
             if ufile != CMATH:
                 continue
             key = '%s.generate_evaluation_code:%s' % (c.qual, sec)
@@ -505,7 +537,7 @@ def run(ctx):
             got.add(kind)
     rs.positive_control(got == {'helper', 'plain'}, 'branches swapped')
     pc = helper_problems(ctx, (None, '__Pyx_mod_', ast.parse('self.type.specialization_name()', mode='eval').body, 2),
-                         [('ModInt', CMATH, 'self.type', set(), 0)], spec_keys)
+                         [('ModInt', CMATH, 'self.type', set(), 0, None)], spec_keys)
     rh.positive_control(any(k.startswith('arity') for k, _ in pc), 'two-argument call of __Pyx_mod_')
     rules += [rh, rs]
 
